@@ -1,5 +1,6 @@
 import ScalesModel.Proofs.LBInv
 import ScalesModel.Proofs.LBTotal
+import ScalesModel.Proofs.LBOwn
 import Mathlib.Data.List.Perm.Subperm
 
 /-!
@@ -438,13 +439,28 @@ theorem c06Total_ok (cfg : Cfg) (idx : Nat) (lb : St) (res : List ResV) (t : TIn
   have : (obsOf lb res).total = lb.sub.total := rfl
   rw [this, t]; simp
 
+/-- after an operation the protocol is past `Open()` -/
+theorem protoStep_phase {p p' : Proto} {op : Op} (h : protoStep p op = some p') : p'.phase ≠ 0 := by
+  cases op <;> simp only [protoStep] at h
+  case opn => split at h <;> [(injection h with h; subst h; simp); cases h]
+  case loaded => split at h <;> [(injection h with h; subst h; simp); cases h]
+  case join =>
+    split at h
+    · injection h with h; subst h; rename_i hc; simp [hc]
+    · split at h <;> [(injection h with h; subst h; rename_i hc; simp [hc]); cases h]
+  case leave =>
+    split at h
+    · injection h with h; subst h; rename_i hc; simp [hc]
+    · split at h <;> [(injection h with h; subst h; rename_i hc; simp [hc]); cases h]
+  all_goals (split at h <;> [cases h; (injection h with h; subst h; assumption)])
+
 theorem specC06_trace (cfg : Cfg) (ops : List Op) : ∀ (p : Proto) (lb : St) (idx : Nat), RInv cfg p lb →
-    TInv cfg lb.sub → protoOk p ops = true → logsLegal cfg lb ops = true →
-    specC06Go cfg idx (flagsOf lb.sub.hs) (comp6.trace cfg lb ops) = .ok := by
+    TInv cfg lb.sub → (p.phase = 0 → lb.sub.adjLog = []) → protoOk p ops = true → logsLegal cfg lb ops = true →
+    specC06Go cfg idx (flagsOf lb.sub.hs) lb.sub.ema (comp6.trace cfg lb ops) = .ok := by
   induction ops with
-  | nil => intro p lb idx _ _ _ _; rfl
+  | nil => intro p lb idx _ _ _ _ _; rfl
   | cons op ops ih =>
-    intro p lb idx h t hp hlg
+    intro p lb idx h t h0 hp hlg
     simp only [logsLegal, Bool.and_eq_true] at hlg
     simp only [protoOk] at hp
     cases hps : protoStep p op with
@@ -453,12 +469,61 @@ theorem specC06_trace (cfg : Cfg) (ops : List Op) : ∀ (p : Proto) (lb : St) (i
       rw [hps] at hp
       obtain ⟨h', _, _⟩ := h.step op hps
       obtain ⟨t1, t2⟩ := total_step cfg lb op
+      have hopn : op = .opn → lb.sub.adjLog = [] := by
+        intro e; subst e
+        simp only [protoStep] at hps
+        split at hps
+        · rename_i hc; exact h0 hc
+        · cases hps
+      obtain ⟨o1, o2⟩ := own_step cfg lb op hopn
       simp only [TComp.trace]
-      show specC06Go cfg idx (flagsOf lb.sub.hs)
+      show specC06Go cfg idx (flagsOf lb.sub.hs) lb.sub.ema
         ((op, (step cfg lb op).2) :: comp6.trace cfg (step cfg lb op).1 ops) = .ok
       simp only [specC06Go, step]
-      rw [c06At_ok cfg idx _ _ h'.full hlg.1, Verdict.ok_and, ← t1, c06Total_ok cfg idx _ _ (t2 t), Verdict.ok_and]
-      exact ih p' _ (idx + 1) h' (t2 t) hp hlg.2
+      have hadj : ∀ res, (obsOf (stepSt cfg lb op).1 res).adj = (stepSt cfg lb op).1.sub.adjLog := fun _ => rfl
+      rw [c06At_ok cfg idx _ _ h'.full hlg.1, Verdict.ok_and, hadj, c06Own_ok idx _ _ o1, Verdict.ok_and,
+        ← t1, c06Total_ok cfg idx _ _ (t2 t), Verdict.ok_and, ← o2]
+      exact ih p' _ (idx + 1) h' (t2 t) (fun hc => absurd hc (protoStep_phase hps)) hp hlg.2
+
+/-- the `_AdjustAperture` records of a whole history, in call order -/
+def adjRecords (h : List (Op × Obs)) : List AdjRec := h.flatMap (fun q => q.2.adj)
+
+/-- the records of a whole run form one chain, from the smoothed load held at its start -/
+theorem trace_own (cfg : Cfg) (ops : List Op) : ∀ (p : Proto) (lb : St),
+    (p.phase = 0 → lb.sub.adjLog = []) → protoOk p ops = true →
+    chainB lb.sub.ema (adjRecords (comp6.trace cfg lb ops)) = true ∧
+    (runSt cfg lb ops).sub.ema = heldAfter lb.sub.ema (adjRecords (comp6.trace cfg lb ops)) := by
+  induction ops with
+  | nil => intro p lb _ _; exact ⟨rfl, rfl⟩
+  | cons op ops ih =>
+    intro p lb h0 hp
+    simp only [protoOk] at hp
+    cases hps : protoStep p op with
+    | none => rw [hps] at hp; cases hp
+    | some p' =>
+      rw [hps] at hp
+      have hopn : op = .opn → lb.sub.adjLog = [] := by
+        intro e; subst e
+        simp only [protoStep] at hps
+        split at hps
+        · rename_i hc; exact h0 hc
+        · cases hps
+      obtain ⟨o1, o2⟩ := own_step cfg lb op hopn
+      obtain ⟨i1, i2⟩ := ih p' (stepSt cfg lb op).1 (fun hc => absurd hc (protoStep_phase hps)) hp
+      have ht : adjRecords (comp6.trace cfg lb (op :: ops)) =
+          (stepSt cfg lb op).1.sub.adjLog ++ adjRecords (comp6.trace cfg (stepSt cfg lb op).1 ops) := rfl
+      rw [ht, chainB_append, heldAfter_append, o1, ← o2]
+      exact ⟨i1, i2⟩
+
+theorem chainB_head {h : Option Rat} {r : AdjRec} {rest : List AdjRec} (hc : chainB h (r :: rest) = true) :
+    r.prev = h := by
+  simp only [chainB, Bool.and_eq_true, decide_eq_true_eq] at hc; exact hc.1
+
+theorem chainB_pair {h : Option Rat} {pre post : List AdjRec} {r r' : AdjRec}
+    (hc : chainB h (pre ++ r :: r' :: post) = true) : r'.prev = some r.avg := by
+  rw [chainB_append] at hc
+  simp only [chainB, Bool.and_eq_true, decide_eq_true_eq] at hc
+  exact hc.2.2.1
 
 theorem TInv.init (cfg : Cfg) : TInv cfg (init cfg).sub := by
   unfold TInv expectedTotal flagsOf
